@@ -345,9 +345,6 @@ def _system_ok(w, o, order, m, node, spec, ncmp):
     mdl = w.I.rec_solvers[-1]
     if mdl.n != size:
         return False, "the system has %d unknowns, %d = (order+1)*(intervals) are needed" % (mdl.n, size)
-    if ncmp:
-        return False, "the assembly compares scalar values (%d comparisons): its entries are not polynomials of the " \
-                      "spacings" % ncmp
     # which unknown is which coefficient: read off the result
     v = spline_view(w, val(o.v))
     if v is None:
@@ -424,6 +421,9 @@ def _system_ok(w, o, order, m, node, spec, ncmp):
         r[aidx[("bv", j)]] = Fr(-1)
     expected = _rref([r for _, r in exp])
     if actual == expected:
+        if ncmp:
+            raise AnalysisBroken("interpolate compares scalar values (%d comparisons) while assembling: the entries are not "
+                                 "polynomials of the spacings, the degree+1-widths argument does not apply" % ncmp)
         return True, ""
     for desc, r in exp:
         if not _in_rowspace(actual, r):
